@@ -28,7 +28,7 @@ def type_table():
     """[(class, enumerator, code)] from the include comments of File.h"""
     txt = open(os.path.join(build.BLF, 'File.h')).read()
     out = []
-    for cls, nm, val in re.findall(r'#include <Vector/BLF/(\w+)\.h>\s*//\s*(\w+)\s*=\s*(\d+)', txt):
+    for cls, nm, val in re.findall(r'#include <Vector/BLF/(\w+)\.h>[ \t]*//[ \t]*(\w+)[ \t]*=[ \t]*(\d+)', txt):
         out.append((cls, nm, int(val)))
     return out
 
